@@ -48,6 +48,18 @@ def load_source(src, workdir):
         cs = cs_from_scenario(scn)
         cs["name"] = src[2]
         return scn, cs
+    if kind == "gen_seq":
+        # ONE generator object asked for several scenarios in a row; the last one is the scenario under test
+        from harness import gen
+        from nasim.scenarios.generator import ScenarioGenerator
+        g = ScenarioGenerator()
+        scn = None
+        with gen.counted_rng(gen.DRAW_BOUND * len(src[1])):
+            for p_ in src[1]:
+                scn = g.generate(**p_)
+        cs = cs_from_scenario(scn)
+        cs["name"] = src[2]
+        return scn, cs
     if kind == "gym":
         name, _modes = gym_id_parts(src[1])
         path = corpus.bench_yaml(name)
